@@ -108,8 +108,14 @@ def expand(scratch):
                CARGO_TARGET_DIR=os.path.join(VERIF, '.cache', 'expand-target'))
     env.pop('RUSTUP_TOOLCHAIN', None)
     t0 = time.time()
-    r = subprocess.run(['cargo', 'rustc', '--lib', '--offline', '--', '-Zunpretty=expanded'],
-                       cwd=scratch.repo, env=env, capture_output=True, text=True)
+    import fcntl
+    import replay_search
+    os.makedirs(env['CARGO_TARGET_DIR'], exist_ok=True)
+    with open(os.path.join(env['CARGO_TARGET_DIR'], '.verif-lock'), 'w') as lk:
+        fcntl.flock(lk, fcntl.LOCK_EX)
+        replay_search.forget_crate(env['CARGO_TARGET_DIR'])   # never let cargo treat another scratch copy's expansion as fresh
+        r = subprocess.run(['cargo', 'rustc', '--lib', '--offline', '--', '-Zunpretty=expanded'],
+                           cwd=scratch.repo, env=env, capture_output=True, text=True)
     if r.returncode != 0 or len(r.stdout) < 1000:
         raise Undecided('macro expansion failed (the tree may not compile): ' + r.stderr[-800:])
     with open(out, 'w') as f:
@@ -241,7 +247,8 @@ def enumerate_obligations(unit):
             obs.append(dict(id='%s.ensures.%s' % (base, name), item=it.id, kind='ensures', props=list(it.props)))
         for k, spec in it.closures.items():
             for name, _e in spec.get('ensures', []):
-                obs.append(dict(id='%s.ensures.closure%d.%s' % (base, k, name), item=it.id, kind='ensures', props=list(it.props)))
+                kk = ('closure%d' % k) if isinstance(k, int) else 'closures(%s)' % k
+                obs.append(dict(id='%s.ensures.%s.%s' % (base, kk, name), item=it.id, kind='ensures', props=list(it.props)))
         for k, spec in it.loops.items():
             for name, _e in spec.get('invariant', []):
                 obs.append(dict(id='%s.invariant.loop%d.%s' % (base, k, name), item=it.id, kind='invariant',
